@@ -402,6 +402,42 @@ func (w *World) pickIndex(n *Node, forInsert bool, bounds []uint64) uint64 {
 	return uint64(r.Int63n(int64(max) + 1))
 }
 
+// invalidIndex returns an out-of-range index for an array of l elements: just past the end, or far beyond it - in
+// particular values whose low 32 (16, 8) bits alone would be a valid position, the extremes of the 64-bit range, and
+// multiples of 2^32 (an index that is narrowed anywhere on its way to a leaf must still be rejected).
+func (w *World) invalidIndex(l uint64, forInsert bool) uint64 {
+	r := w.rng
+	lo := uint64(r.Intn(3))
+	if forInsert {
+		lo++
+	}
+	var low uint64
+	if l > 0 {
+		low = uint64(r.Int63n(int64(l)))
+	}
+	switch r.Intn(12) {
+	case 0:
+		return 1<<32 + low
+	case 1:
+		return uint64(1+r.Intn(1<<20))<<32 + low
+	case 2:
+		return 1<<63 + low
+	case 3:
+		return ^uint64(0)
+	case 4:
+		return ^uint64(0) - low
+	case 5:
+		return 1<<32 + l + lo
+	case 6:
+		if x := 1<<16 + low; x >= l+lo {
+			return x
+		}
+	case 7:
+		return 1 << 32
+	}
+	return l + lo
+}
+
 // Step performs one generated operation on a container reachable from root.
 func (w *World) Step(root *Node, ph Phase, cfg *HistCfg) error {
 	r := w.rng
@@ -426,7 +462,7 @@ func (w *World) Step(root *Node, ph Phase, cfg *HistCfg) error {
 				return err
 			}
 			if invalid {
-				err := w.OpArrayInsert(n, l+1+uint64(r.Intn(3)), v)
+				err := w.OpArrayInsert(n, w.invalidIndex(l, true), v)
 				if err != nil {
 					return err
 				}
@@ -445,7 +481,7 @@ func (w *World) Step(root *Node, ph Phase, cfg *HistCfg) error {
 				return err
 			}
 			if invalid {
-				if err := w.OpArraySet(n, l+uint64(r.Intn(3)), v); err != nil {
+				if err := w.OpArraySet(n, w.invalidIndex(l, false), v); err != nil {
 					return err
 				}
 				return w.discardUnused(v)
@@ -453,7 +489,7 @@ func (w *World) Step(root *Node, ph Phase, cfg *HistCfg) error {
 			return w.OpArraySet(n, w.pickIndex(n, false, w.bounds), v)
 		case roll < ph.Insert+ph.Set+ph.Remove:
 			if invalid {
-				return w.OpArrayRemove(n, l+uint64(r.Intn(3)))
+				return w.OpArrayRemove(n, w.invalidIndex(l, false))
 			}
 			if l == 0 {
 				return nil
@@ -461,7 +497,7 @@ func (w *World) Step(root *Node, ph Phase, cfg *HistCfg) error {
 			return w.OpArrayRemove(n, w.pickIndex(n, false, w.bounds))
 		case roll < ph.Insert+ph.Set+ph.Remove+ph.Read:
 			if invalid {
-				return w.OpArrayGet(n, l+uint64(r.Intn(3)))
+				return w.OpArrayGet(n, w.invalidIndex(l, false))
 			}
 			if l == 0 {
 				return nil
